@@ -36,7 +36,7 @@ def run(ctx):
     d = ctx.spec_copy("hosts")
     ctx.rule = ("MC: lemmas of HostsLine.tla for every token line up to the bound; G: every token line (12 tokens to 5/6, "
                 "5 classes with rotated members to 8/9, record-shaped class lines (addresses, names, bad names, separators) to 11/13, no two whole-field tokens glued) with the outcome Parse predicts, "
-                "replayed on UnmarshalText/MarshalText under 4 concretisations (plain, 2 x uniform, ACE/Punycode names) x {fresh, dirty} record; T: seeded random byte "
+                "replayed on UnmarshalText/MarshalText under 4 concretisations (plain, 2 x uniform, ACE/Punycode and long-IDN names) x {fresh, dirty} record; T: seeded random byte "
                 "lines abstracted by the reference functions and judged by HostsLineTrace.tla. "
                 "distinct_nontrivial = distinct non-empty token lines replayed")
     ctx.assumptions += [
@@ -78,12 +78,15 @@ def run(ctx):
     ctx.extra["lines_enumerated"] = nvec
     ctx.extra["distinct_concrete_lines"] = s["distinct_concrete_lines"]
     ctx.extra["accepted_roundtrips"] = s["accepted_roundtrips"]
-    # Punycode: all-ASCII names that only idna.ToASCII rejects must have been the first bad name in the first, a
-    # middle and the last name position (and valid ACE names accepted), otherwise the generator families lost them.
-    ace = {k: s.get(k, 0) for k in ("ace_bad_first", "ace_bad_middle", "ace_bad_last", "ace_valid_accepted")}
-    if min(ace.values()) == 0:
-        raise CheckerError("ACE (xn--) names missing from a name position: %s" % ace)
-    ctx.extra["ace_names"] = ace
+    # Names on which the raw text and the idna.ToASCII form disagree must have occurred in the first, a middle and the
+    # last name position, otherwise the generator families lost them: bogus Punycode (all-ASCII, rejected only by
+    # ToASCII) and "mirror" names (raw < 253 bytes, ASCII form > 253) as the first bad name; valid ACE names and long
+    # IDN names (raw > 253 bytes / > 63 per label, ASCII form within the limits) among the delivered names.
+    special = {c + "_" + p: s.get(c + "_" + p, 0) for c in ("ace_bad", "mirror_bad", "ace_valid", "long_idn")
+               for p in ("first", "middle", "last")}
+    if min(special.values()) == 0:
+        raise CheckerError("special names missing from a name position: %s" % special)
+    ctx.extra["special_names_by_position"] = special
 
     # 3. T: random byte lines, abstracted by the references, judged by TLC.
     n = 20000 if q else 150000
